@@ -37,6 +37,7 @@ func (x *exec) doCall(s *State, cc *ssa.CallCommon, pos token.Pos, instr ssa.Ins
 			}
 		}
 		key := invokeKey(cc)
+		x.beforeCallAsserts(s, key, pos)
 		if blk, k2 := x.lookupContract(key); blk != nil {
 			return x.applyContract(s, blk, nil, append([]Value{recv}, args...), pos, k2, cc.Signature())
 		}
@@ -86,9 +87,33 @@ func resultValue(vals []Value, n int) Value {
 
 // callFunc calls a statically known function.
 func (x *exec) callFunc(s *State, fn *ssa.Function, args []Value, bind []Value, pos token.Pos) Value {
+	x.beforeCallAsserts(s, FuncKey(fn), pos)
 	r := x.callFunc1(s, fn, args, bind, pos)
 	x.afterCall(s, fn, args)
 	return r
+}
+
+// beforeCallAsserts: "assertcall <callee suffix> :: <expr>" clauses of the
+// function under verification are obligations at every call of that callee,
+// evaluated in the caller's own scope (locals visible).
+func (x *exec) beforeCallAsserts(s *State, key string, pos token.Pos) {
+	t := x.topExec()
+	if t != x || t.contract == nil || x.e.dry > 0 {
+		return
+	}
+	for _, cl := range t.contract.Of("assertcall") {
+		parts := strings.SplitN(cl.Text, "::", 2)
+		if len(parts) != 2 || !strings.HasSuffix(key, strings.TrimSpace(parts[0])) {
+			continue
+		}
+		sub := &Clause{Kind: "assertcall", Text: strings.TrimSpace(parts[1]), Label: cl.Label, File: cl.File, Line: cl.Line}
+		g := x.evalClauseBool(sub, s, token.NoPos)
+		lbl := cl.Label
+		if lbl == "" {
+			lbl = "assert"
+		}
+		x.oblige("assert", lbl+"@call:"+calleeShort(key), pos, s, g, sub.Text)
+	}
 }
 
 // afterCall applies the "atcall" ghost updates of the contract under verification:
@@ -566,6 +591,10 @@ func (x *exec) copyElems(s *State, el types.Type, dArr, dOff, sArr, sOff, n *Ter
 			keys = append(keys, rowKey{elemKey(el) + l.comp, l.sort})
 		}
 	}
+	if structOf(el) == nil && repOf(el) == RByte {
+		x.bytesLockset(s, sArr, false, x.pos)
+		x.bytesLockset(s, dArr, true, x.pos)
+	}
 	for _, l := range keys {
 		key := l.key
 		h := e.heapGet(s, key, Array(Int, Array(Int, l.sort)))
@@ -829,7 +858,9 @@ func (x *exec) makeMap(s *State, t types.Type) Value {
 	mt := t.Underlying().(*types.Map)
 	ks := e.mapKeySort(mt.Key())
 	if ks == nil {
-		return PoisonV{"map with key type " + mt.Key().String()}
+		// keys of this type are not modelled: the map is opaque (lookups yield
+		// arbitrary values, updates are forgotten)
+		return e.newRef(s, "map")
 	}
 	r := e.newRef(s, "map")
 	key := mapKey(t)
@@ -890,10 +921,14 @@ func (x *exec) mapUpdate(s *State, i *ssa.MapUpdate) {
 	ks := e.mapKeySort(mt.Key())
 	kt := e.mapKeyTerm(x.val(i.Key, s), mt.Key())
 	ls := x.mapLeaves(mt)
-	if m == nil || ks == nil || kt == nil || ls == nil {
+	if m == nil {
 		e.unsupported("map update on %s", i.Map.Type())
 	}
 	x.oblige("nil", "", i.Pos(), s, c.Ne(m, c.IntC(0)), "assignment to entry in nil map")
+	if ks == nil || kt == nil || ls == nil {
+		e.noteWrite(s, mapKey(i.Map.Type()), wtarget{kind: wRef, ref: m})
+		return // opaque map
+	}
 	key := mapKey(i.Map.Type())
 	hasH := e.heapGet(s, key+"#has", Array(Int, Array(ks, Bool)))
 	had := c.Select(c.Select(hasH, m), kt)
@@ -918,7 +953,8 @@ func (x *exec) mapDelete(s *State, m *Term, k Value, t types.Type) {
 	ks := e.mapKeySort(mt.Key())
 	kt := e.mapKeyTerm(k, mt.Key())
 	if ks == nil || kt == nil {
-		e.unsupported("delete on %s", t)
+		e.noteWrite(s, mapKey(t), wtarget{kind: wRef, ref: m})
+		return // opaque map
 	}
 	key := mapKey(t)
 	hasH := e.heapGet(s, key+"#has", Array(Int, Array(ks, Bool)))
